@@ -66,6 +66,9 @@ package validating
 
 //@ define wfStyle(s, st, tr) = wfSteps(st) && len(tr) <= 1 && (forall j :: 0 <= j && j < len(tr) ==> wfTraffic(tr[j]))
 //@ define wfStrategy(s) = ((s.Canary != nil) != (s.BlueGreen != nil)) && (s.Canary != nil ==> wfSteps(s.Canary.Steps) && len(s.Canary.TrafficRoutings) <= 1 && (forall j :: 0 <= j && j < len(s.Canary.TrafficRoutings) ==> wfTraffic(s.Canary.TrafficRoutings[j]))) && (s.BlueGreen != nil ==> wfSteps(s.BlueGreen.Steps) && len(s.BlueGreen.TrafficRoutings) <= 1 && (forall j :: 0 <= j && j < len(s.BlueGreen.TrafficRoutings) ==> wfTraffic(s.BlueGreen.TrafficRoutings[j])))
+// (F26) a workload is identified by group, kind and name - that is how the controllers' finders and the admission of
+// workloads resolve a reference; the version part of apiVersion does not make a different workload
+//@ define sameWorkload(a, b) = ite(gvOk(a.APIVersion) && gvOk(b.APIVersion), gvGroup(a.APIVersion) == gvGroup(b.APIVersion), a.APIVersion == b.APIVersion) && a.Kind == b.Kind && a.Name == b.Name
 //@ define sameRef(a, b) = a.APIVersion == b.APIVersion && a.Kind == b.Kind && a.Name == b.Name
 
 //@ func GetContextFromv1beta1Rollout
@@ -76,7 +79,7 @@ package validating
 
 //@ func IsSameWorkloadRefGVKName
 //@ props C09
-//@ ensures result == (a != nil && b != nil && sameRef(a, b))
+//@ ensures result == (a != nil && b != nil && sameWorkload(a, b))
 //@ pure
 
 //@ func validateRolloutSpec
@@ -86,7 +89,7 @@ package validating
 //@ ensures accepted_means_wellformed: len(result) == 0 ==> wfStrategy(rollout.Spec.Strategy)
 
 //@ define listed() = as(iref(#List.arg2), "*v1beta1.RolloutList")
-//@ define noConflict(l, ro, j) = l.Items[j].Name == ro.Name || !sameRef(l.Items[j].Spec.WorkloadRef, ro.Spec.WorkloadRef)
+//@ define noConflict(l, ro, j) = l.Items[j].Name == ro.Name || !sameWorkload(l.Items[j].Spec.WorkloadRef, ro.Spec.WorkloadRef)
 
 //@ func (*RolloutCreateUpdateHandler).validateRolloutConflict
 //@ props C09
@@ -199,11 +202,11 @@ package validating
 
 //@ func IsSameV1alpha1WorkloadRefGVKName
 //@ props C09
-//@ ensures result == (a != nil && b != nil && sameRef(a, b))
+//@ ensures result == (a != nil && b != nil && sameWorkload(a, b))
 //@ pure
 
 //@ define a1listed() = as(iref(#List.arg2), "*v1alpha1.RolloutList")
-//@ define a1noConflict(l, ro, j) = l.Items[j].Name == ro.Name || !(l.Items[j].Spec.ObjectRef.WorkloadRef != nil && ro.Spec.ObjectRef.WorkloadRef != nil && sameRef(l.Items[j].Spec.ObjectRef.WorkloadRef, ro.Spec.ObjectRef.WorkloadRef))
+//@ define a1noConflict(l, ro, j) = l.Items[j].Name == ro.Name || !(l.Items[j].Spec.ObjectRef.WorkloadRef != nil && ro.Spec.ObjectRef.WorkloadRef != nil && sameWorkload(l.Items[j].Spec.ObjectRef.WorkloadRef, ro.Spec.ObjectRef.WorkloadRef))
 
 //@ func (*RolloutCreateUpdateHandler).validateV1alpha1RolloutConflict
 //@ props C09
